@@ -14,8 +14,7 @@ NOT_APPLICABLE = [
                'but nothing here can discharge it, sampling parameters is '
                'testing'},
 ]
-for _p in ('C01', 'C02', 'C06', 'C08', 'C09', 'C10',
-           'C17', 'C19', 'C20'):
+for _p in ('C10',):
     NOT_APPLICABLE.append({
         'property_id': _p,
         'reason': 'not claimed yet: contracts for this property are planned '
